@@ -355,10 +355,55 @@ def r08d(ctx, run):
         run.ok(f.site(c["ln"]), "compile_num_binary called from %s" % f.qual)
 
 
+def r08e(ctx, run):
+    """every numeric binary expression gets its instruction from the selection table: compile_binary hands both operands (cast to the common type)
+    to compile_complex_compare - which sends numbers to compile_num_binary - or to logical_and / logical_or; it emits no arithmetic of its own.
+    A shortcut that emits instructions directly (a strength reduction, a fast path for literals) bypasses the signedness-aware table decided by R08.a."""
+    import prov
+    fn = ctx.syn.fn("FunctionCompiler::compile_binary", "codegen/src/compiler/functions.rs")
+    P = prov.Prov(fn)
+    results, emitted = [], []
+
+    def on(n, sc):
+        if n.get("k") == "return" and n.get("e") is not None:
+            results.append((n["e"], sc, n["ln"]))
+        if n.get("k") == "mcall" and n["r"].get("k") == "mcall" and n["r"]["m"] == "ins":
+            emitted.append((n["m"], n["ln"]))
+    P.visit(on)
+    tail = [st for st in fn.body["s"] if st.get("k") == "expr" and not st.get("semi")]
+    if tail:
+        results.append((tail[-1]["e"], None, tail[-1]["ln"]))
+    # the tail expression lives in the function's outermost block scope: resolve it by a second visit that records the scope of its node
+    scopes = {}
+
+    def on2(n, sc):
+        scopes[id(n)] = sc
+    P.visit(on2)
+    SELECT = {"m:compile_complex_compare", "m:compile_num_binary", "m:logical_and", "m:logical_or"}
+    n_res = 0
+    for e, sc, ln in results:
+        sc = sc or scopes.get(id(e)) or P.root
+        tags = P.tags(e, sc)
+        n_res += 1
+        through = tags & SELECT
+        const_only = "m:iconst" in tags and not any(t.startswith("m:") and t[2:] not in ("iconst", "ins", ".builder") for t in tags) and not any(t.startswith("param:") and t != "param:self" for t in tags)
+        run.check(bool(through) or const_only, fn.site(ln), "result at line %d comes from %s" % (ln, sorted(through) or "a constant"), fn.qual, "result-from-selection", fn.file, ln,
+                  "compile_binary returns a value that does not come from compile_complex_compare / compile_num_binary / logical_and / logical_or (computed from %s): the "
+                  "instruction is chosen outside the signedness-aware selection table" % sorted(t for t in tags if t.startswith("m:"))[:8])
+    other = [(m, ln) for m, ln in emitted if m != "iconst"]
+    run.check(not other, fn.site(other[0][1] if other else fn.ln), "compile_binary emits no instruction of its own besides constants (%d iconst)" % len(emitted), fn.qual, "emits-arithmetic",
+              fn.file, other[0][1] if other else fn.ln,
+              "compile_binary emits %s itself: arithmetic belongs to compile_num_binary, where the instruction depends on the operand type's signedness (an arithmetic shift is "
+              "not a signed division: -7 / 4 must be -1)" % sorted({m for m, _ in other}))
+    if n_res < 4:
+        raise LookupError("results of compile_binary: %d" % n_res)
+
+
 def rules(ctx):
     return [
         Rule("R08.a", "binary operator -> Cranelift instruction table (signedness-dependent members on the signed branch)", 27, r08a),
         Rule("R08.b", "cast_num decision tree: extension by source signedness, no narrowing before int->float, float->int converts at >= target width", 144, r08b),
         Rule("R08.c", "finalize_int width/signedness table and its callers", 20, r08c),
+        Rule("R08.e", "every numeric binary expression takes its instruction from the selection table: compile_binary emits no arithmetic of its own", 5, r08e),
         Rule("R08.d", "index/exit casts target unsigned; callers of the two selection functions enumerated", 3, r08d),
     ]
